@@ -11,7 +11,7 @@ import math
 
 import numpy as np
 
-from .c03_synth import VAR_RANGE, priorities_of
+from .c03_synth import VAR_RANGE, is_linearized, priorities_of
 
 NAN = float("nan")
 INF = float("inf")
@@ -89,7 +89,9 @@ def documented_terms(inst, gis):
                     coef = pm * s["weight"] / na[c]
                     if sbs:
                         coef = coef / n_obj
-                    terms.append((gi, m, c, i if s["path"] else None, coef, nom, s["order"]))
+                    # a linearised goal is penalised through its linear majorant variable (order 1)
+                    order = 1 if is_linearized(inst, s) else s["order"]
+                    terms.append((gi, m, c, i if s["path"] else None, coef, nom, order))
     return terms
 
 
